@@ -85,3 +85,20 @@ Example c06_pool_count_refuted_on_pinned_tree :
   let s := p_run barrier_pinned (p_init 2) sched_pinned in
   pmain s = MRead /\ pmsg s = (-1)%Z /\ pnet s = 0%Z /\ Pool.quiescent s.
 Proof. exact pool_pinned_refuted. Qed.
+
+(* ---- the thread counts contributed through one mailbox channel (Model/Chan.v) ----
+   For the programs GENERATED from the current channel.rs (count +1 after a successful push, -1 after a
+   successful pop): whenever no sender is between its push and its count update and the receiver is not between
+   its pop and its count update, the sum of the contributions equals the number of messages queued in that
+   mailbox, for every number of senders, capacity and interleaving.  Together with c06_pool_count_read_is_exact
+   (the executor reads the exact sum of the thread counts) this is the multi-threaded counterpart of
+   c06_count_exact_step. *)
+Require Import NX.Model.Chan NX.gen.ChanProg NX.Proofs.ChanInv NX.Proofs.ChanCount NX.Proofs.ChanGen.
+
+Theorem c06_chan_count_is_queued :
+  forall c n ls,
+    let s := c_run chan_gen (c_init c n) ls in
+    (forall x, inc_pending (spc_ (S_ s x)) = false) -> dec_pending (rpc_ s) = false ->
+    ccount s = Z.of_nat (cavail s).
+Proof. exact chan_gen_count_is_queued. Qed.
+Print Assumptions c06_chan_count_is_queued.
